@@ -587,6 +587,13 @@ func (rs *s3ClientStorage) PutObject(ctx context.Context, bucketName storage.Buc
 	if opts != nil && opts.StorageClass != nil {
 		input.StorageClass = types.StorageClass(*opts.StorageClass)
 	}
+	if opts != nil && len(opts.Tags) > 0 {
+		values := url.Values{}
+		for k, v := range opts.Tags {
+			values.Set(k, v)
+		}
+		input.Tagging = aws.String(values.Encode())
+	}
 	putObjectResult, err := rs.s3Client.PutObject(ctx, input)
 	var notFoundError *types.NotFound
 	if err != nil && errors.As(err, &notFoundError) {
